@@ -120,7 +120,7 @@ impl Prop for C12 {
     }
 
     fn cases(tier: Tier) -> u64 {
-        tier.pick(6_000, 100_000)
+        tier.pick(24_000, 240_000)
     }
 
     fn strategy(tier: Tier) -> BoxedStrategy<Case> {
